@@ -70,8 +70,11 @@ def scenarios(rng, n, tier):
         for i in range(nj):
             call = rng.choice([0, 0, 1, 2, 3, 4, 5])
             T = rng.choice([1, 999_999, 10**6, 59 * 10**6, 3600 * 10**6, 86_400 * 10**6 * 365 * rng.randint(1, 50)]) + i
-            while T in used:
-                T += 1
+            if used and rng.random() < 0.2:
+                T = rng.choice(sorted(used))    # the same due instant as another job (ties in the sort)
+            else:
+                while T in used:
+                    T += 1
             used.add(T)
             jobs.append({
                 "call": call, "T": T, "kind": rng.choice(KINDS), "alias": rng.choice(ALIASES),
